@@ -80,4 +80,129 @@ theorem model_arguments_eq_spec {S : Schema} {D : Document} (h : WellScoped S D)
   intro o ho
   exact argsOcc_ok h.wf (hocc o ho).1 (hocc o ho).2
 
+/-- **Fragment declarations group** (validate_fragments.go:16-63 = §5.5.1.1 – §5.5.1.4), all
+    documents, no hypothesis: the model reports an error iff a fragment name is repeated, a type
+    condition (of a definition or of an inline fragment, at any depth) names no type or a
+    non-composite type, or a fragment is never spread. (Every error of this pass is primary.) -/
+theorem model_fragment_declarations_eq_spec (S : Schema) (D : Document) :
+    Model.validateFragmentDeclarations S D = [] ↔
+      (Spec.fragmentNamesUnique D = true ∧ Spec.fragmentTypesExist S D = true ∧
+        Spec.fragmentsOnComposite S D = true ∧ Spec.fragmentsUsed S D = true) := by
+  unfold Model.validateFragmentDeclarations
+  simp only [List.append_eq_nil_iff, fragDeclLoop_nil, List.not_mem_nil, not_false_eq_true,
+    implies_true, true_and, fragsOf_names]
+  -- the inspection part
+  have hinl : (D.flatMap (fun d => inlineCondSet S (Model.defSel d)) = []) ↔
+      ((Spec.selOccs S D).all (condExistsAt S) = true ∧ (Spec.selOccs S D).all (condCompositeAt S) = true) := by
+    unfold Spec.selOccs
+    simp only [List.flatMap_eq_nil_iff, all_flatMap, List.all_eq_true]
+    constructor
+    · intro h
+      refine ⟨fun d hd o ho => ?_, fun d hd o ho => ?_⟩ <;>
+      · have := h d hd
+        rw [inlineCond_set_flat S (specDefScope S d), List.flatMap_eq_nil_iff] at this
+        have ho' : o ∈ occSet S (specDefScope S d) (Model.defSel d) := by rw [← occDef_eq]; exact ho
+        have := this o ho'
+        cases o with
+        | field => rfl
+        | spread => rfl
+        | inline parent tc dirs p =>
+          cases tc with
+          | none => rfl
+          | some tp =>
+            obtain ⟨t, tpos⟩ := tp
+            simp only [condErrOcc, typeCondition_nil] at this
+            simp [condExistsAt, condCompositeAt, this.1, this.2]
+    · rintro ⟨h1, h2⟩ d hd
+      rw [inlineCond_set_flat S (specDefScope S d), List.flatMap_eq_nil_iff]
+      intro o ho
+      have ho' : o ∈ Spec.occDef S d := by rw [occDef_eq]; exact ho
+      have a := h1 d hd o ho'
+      have b := h2 d hd o ho'
+      cases o with
+      | field => rfl
+      | spread => rfl
+      | inline parent tc dirs p =>
+        cases tc with
+        | none => rfl
+        | some tp =>
+          obtain ⟨t, tpos⟩ := tp
+          simp only [condErrOcc, typeCondition_nil]
+          simp only [condExistsAt] at a
+          simp only [condCompositeAt, a, Bool.or_eq_true] at b
+          refine ⟨a, ?_⟩
+          rcases b with b | b
+          · cases hf : S.find t <;> simp [hf] at a b
+          · exact b
+  -- the unused part
+  have hunused : ((firstDefs [] (Model.fragsOf D)).flatMap (fun f =>
+        if (Model.usedFragments D).contains f.name then [] else [newError f.pos "unused fragment"]) = []) ↔
+      Spec.fragmentsUsed S D = true := by
+    simp only [List.flatMap_eq_nil_iff]
+    have := firstDefs_names [] (Model.fragsOf D) (fun n => n ∈ Model.usedFragments D)
+    simp only [List.not_mem_nil, not_false_eq_true, true_imp_iff] at this
+    unfold Spec.fragmentsUsed
+    rw [List.all_eq_true, ← fragsOf_names, ← usedFragments_eq S D]
+    simp only [List.mem_map, forall_exists_index, and_imp, forall_apply_eq_imp_iff₂,
+      List.contains_eq_mem, decide_eq_true_eq]
+    rw [← this]
+    constructor
+    · intro h f hf
+      have := h f hf
+      by_cases hc : f.name ∈ Model.usedFragments D
+      · exact hc
+      · simp [hc] at this
+    · intro h f hf
+      simp [h f hf]
+  rw [hinl, hunused]
+  unfold Spec.fragmentNamesUnique Spec.fragmentTypesExist Spec.fragmentsOnComposite
+  simp only [Bool.and_eq_true, List.all_eq_true]
+  have hdefs := all_mem_fragDefs D (fun _ tc => (S.find tc).isSome = true ∧ Spec.isComposite S tc = true)
+  rw [hdefs]
+  constructor
+  · rintro ⟨⟨⟨hu, hd⟩, h1, h2⟩, h3⟩
+    refine ⟨hu, ⟨fun f hf => (hd f hf).1, by simpa [List.all_eq_true] using h1⟩,
+      ⟨fun f hf => by simp [(hd f hf).2], by simpa [List.all_eq_true] using h2⟩, h3⟩
+  · rintro ⟨hu, ⟨he, h1⟩, ⟨hc, h2⟩, h3⟩
+    refine ⟨⟨⟨hu, fun f hf => ⟨he f hf, ?_⟩⟩, by simpa [List.all_eq_true] using h1,
+      by simpa [List.all_eq_true] using h2⟩, h3⟩
+    have a := he f hf
+    have b := hc f hf
+    simp only [Bool.or_eq_true] at b
+    rcases b with b | b
+    · cases hf' : S.find f.2.1 <;> simp [hf'] at a b
+    · exact b
+
+/-- **Fragment spreads group, targets and possibility** (validate_fragments.go:104-153 = §5.5.2.1 +
+    §5.5.2.3), all well-scoped documents with unique fragment names: the model reports a primary
+    error iff a spread names no fragment or a (named or inline) spread is impossible. -/
+theorem model_fragment_spreads_eq_spec {S : Schema} {D : Document} (h : WellScoped S D)
+    (hu : Spec.fragmentNamesUnique D = true) :
+    primaryFree (Model.spreadChecks S D) = (Spec.spreadsDefined S D && Spec.spreadsPossible S D) := by
+  have hspec : (Spec.spreadsDefined S D && Spec.spreadsPossible S D) = (Spec.selOccs S D).all (spreadOkAt S D) := by
+    unfold Spec.spreadsDefined Spec.spreadsPossible Spec.spreadNames
+    rw [all_filterMap, all_and]
+    apply all_congr_mem
+    intro o _
+    cases o with
+    | field => rfl
+    | spread parent n np dirs p => cases parent <;> rfl
+    | inline parent tc dirs p =>
+      cases parent with
+      | none => rfl
+      | some q =>
+        cases tc with
+        | none => rfl
+        | some tp => rfl
+  rw [hspec]
+  unfold Model.spreadChecks Spec.selOccs
+  rw [primaryFree_flatMap, all_flatMap]
+  apply all_congr_mem
+  intro d hd
+  obtain ⟨e, hocc⟩ := def_occs h hd
+  rw [spreads_set_flat, e, primaryFree_flatMap]
+  apply all_congr_mem
+  intro o ho
+  exact spreadOcc_ok hu (hocc o ho).1
+
 end ApiFu.C04
